@@ -80,13 +80,18 @@ def trace_part(chk, tier):
                 if (k0 in HTML_ONLY or k0 == 'dir') and not is_plain_xml:
                     continue      # the definitions of the HTML state pseudo-classes belong to C17; here: never in plain XML
                 css = selmod.selector_list(ast)
-                ev = {'id': '%s.%s.%d' % (parser, variant, j), 'doc': d, 'sel': ast, 'nsmap': [], 'scope': root, 'target': 0, 'css': css}
-                try:
-                    ev['res'] = [idmap[id(t)] for t in sv.select(css, soup)]
-                except Exception as e:
-                    ev['res'] = [-2]
-                    ev['exc'] = type(e).__name__
-                lines.append(json.dumps(ev))
+                # the document kind is a property of the DOCUMENT, whatever element the call is made on: besides the document object, every
+                # element with element children is a call target (e.g. the XHTML-namespaced <div> embedded in a plain XML feed)
+                inner = [i + 1 for i, kk in enumerate(d['kind']) if kk == 'e' and any(p == i + 1 and k2 == 'e' for p, k2 in zip(d['parent'], d['kind']))]
+                targets = [0] + (inner if (k0 in HTML_ONLY or k0 == 'dir') else ([inner[j % len(inner)]] if inner else []))
+                for tg in targets:
+                    ev = {'id': '%s.%s.%d.%d' % (parser, variant, j, tg), 'doc': d, 'sel': ast, 'nsmap': [], 'scope': tg or root, 'target': tg, 'css': css}
+                    try:
+                        ev['res'] = [idmap[id(t)] for t in sv.select(css, soup if tg == 0 else nodes[tg])]
+                    except Exception as e:
+                        ev['res'] = [-2]
+                        ev['exc'] = type(e).__name__
+                    lines.append(json.dumps(ev))
     trace.validate(chk, lines, 'Trace_Select', 'trace-parsers')
     e = json.loads(lines[5])
     chk.sample({'trace_event': {'id': e['id'], 'css': e['css'], 'res': e['res']}}, cap=14)
